@@ -1338,7 +1338,7 @@ pub const MODULE_STATES: &[(&str, &str)] = &[
     ("effect-on-importer", "a := 1; outer_c += 5"),
     // every statement form of docs/statements.md in one imported file (value, type and default
     // arms of match, if-set, while-set, for, loop, destructuring, struct, module, type filter, slice)
-    ("all-constructs", "v := match 5 { x: float => 1, 5, 6 => 2, => 3, }; w := if y: int = v { y } else { 0 }; (p, q) := (1, \"s\"); st := struct{a := p, b := q}; m := mod { k := 1 }; fn1 := (x: int|string) -> int { return match x { 1 => 10, \"a\", \"b\" => 20, i: int => i, s: string => 0, } }; acc := mut 0; for e in [1, 2, 3]~ { acc += e }; i := mut 0; loop { i += 1; if *i > 2 { break } }; while *i > 0 { i -= 1 }; n := mut 3; while t: int = *n { n -= 1; if t < 2 { break } }; fl := ([1, \"a\", 2.5]~ ? int) $]; sl := [1, 2, 3][1:]"),
+    ("all-constructs", "v := match 5 { x: float => 1, 5, 6 => 2, => 3, }; w := if y: int = v { y } else { 0 }; (p, q) := (1, \"s\"); st := struct{a := p, b := q}; m := mod { k := 1 }; fn1 := (x: int|string) -> int { return match x { 1 => 10, \"a\", \"b\" => 20, i: int => i, s: string => 0, } }; acc := mut 0; for e in [1, 2, 3]~ { acc += e }; i := mut 0; loop { i += 1; if *i > 2 { break } }; while *i > 0 { i -= 1 }; n := mut 3; while t: int = *n { n -= 1; if t < 2 { break } }; fl := ([1, \"a\", 2.5]~ ? int) $]; sl := [1, 2, 3][1:]; cnt := mut 0; for e2 in () -> (bool, int) { cnt += 1; return (*cnt < 3, *cnt) } { acc += e2 }; g2 := (() -> int { return 1 }); r2 := [1, 2]~ $0 (s2: int, e3: int) -> int { return s2 + e3 }"),
 ];
 
 /// The top-level names a successfully imported file in this state must yield (None = no claim).
@@ -1351,7 +1351,7 @@ fn module_names(state: &str) -> Option<Vec<&'static str>> {
         "shadows-importer" => vec!["w", "z"],
         "nbsp-literal" => vec!["label"],
         "case-names" => vec!["G", "ID", "Id", "g", "id"],
-        "all-constructs" => vec!["acc", "fl", "fn1", "i", "m", "n", "p", "q", "sl", "st", "v", "w"],
+        "all-constructs" => vec!["acc", "cnt", "fl", "fn1", "g2", "i", "m", "n", "p", "q", "r2", "sl", "st", "v", "w"],
         _ => return None,
     })
 }
